@@ -955,3 +955,104 @@ Proof.
   intros mi c0 gs tr l1 a0 l2 e acts l3 g t Hw Hrun Hheld Hin.
   eapply spec_resume_needs_unlock_and_lock; [apply (eval_only_with_lock_partial mi c0 gs tr Hw) | eassumption | assumption | eassumption].
 Qed.
+
+(* ------------------------------------------------------------------------------------------------------------ *)
+(* 11. Configure since /repo 38fa1ff: an accepted configuration paces within the bound                           *)
+(* ------------------------------------------------------------------------------------------------------------ *)
+
+Lemma configure_accepts : forall mods mi, configure mods = Some mi ->
+  mi = configure_min mods /\ forall m, In m mods -> 1 <= eff_interval m <= max_pace_interval.
+Proof.
+  intros mods mi H. unfold configure in H. destruct (forallb interval_ok mods) eqn:Hf; [|discriminate].
+  inversion H as [Heq]. split; [reflexivity|]. intros m Hm. rewrite forallb_forall in Hf. specialize (Hf m Hm).
+  unfold interval_ok in Hf. apply andb_prop in Hf as [Ha Hb]. apply Z.leb_le in Ha. apply Z.leb_le in Hb. lia.
+Qed.
+
+(* minInterval of an accepted configuration: the shortest configured interval (or the fixed 310536000 s without any
+   module), and always within the range in which the model's arithmetic is exact *)
+Theorem configure_accepted_range : forall mods mi, configure mods = Some mi ->
+  1 <= mi <= max_pace_interval /\ (mods <> [] -> shortest mods mi) /\ (mods = [] -> mi = no_module_interval).
+Proof.
+  intros mods mi H. destruct (configure_accepts mods mi H) as [-> Hr].
+  assert (Hlt : forall m, In m mods -> eff_interval m < max_int64).
+  { intros m Hm. specialize (Hr m Hm). unfold max_pace_interval, max_int64 in *. lia. }
+  destruct mods as [|m0 r].
+  - split; [vm_compute; split; discriminate|]. split; [congruence | reflexivity].
+  - assert (Hs : shortest (m0 :: r) (configure_min (m0 :: r))) by (apply min_interval_is_min; [discriminate | exact Hlt]).
+    split; [|split; [intros _; exact Hs | discriminate]].
+    destruct Hs as [Hin _]. apply in_map_iff in Hin as [m [<- Hm]]. apply Hr. exact Hm.
+Qed.
+
+(* C15, second sentence, for everything Configure accepts: no hypothesis on the intervals *)
+Theorem pacing_accepted : forall mods mi i c0 gs tr l1 e1 a1 l2 e2 a2 l3 g t1 t2,
+  configure mods = Some mi ->
+  shortest mods i ->
+  snd (run (step_s mi) (init_state c0 gs) tr) = l1 ++ (e1, a1) :: l2 ++ (e2, a2) :: l3 ->
+  In (Eval g t1) a1 -> In (Eval g t2) a2 ->
+  forallb (keeps g) (map fst l2) = true ->
+  t2 - t1 > i * ns_per_s.
+Proof.
+  intros mods mi i c0 gs tr l1 e1 a1 l2 e2 a2 l3 g t1 t2 Hc Hs Hrun Hin1 Hin2 Hk.
+  destruct (configure_accepted_range mods mi Hc) as [Hr [Hsh _]].
+  assert (Hne : mods <> []) by (destruct Hs as [Hin _]; destruct mods; [contradiction | discriminate]).
+  rewrite (shortest_unique mods i mi Hs (Hsh Hne)).
+  eapply pacing; try eassumption. lia.
+Qed.
+
+Theorem pacing_accepted_interleaved : forall mods mi i c0 gs tr l1 e1 a1 l2 e2 a2 l3 g t1 t2,
+  configure mods = Some mi ->
+  shortest mods i ->
+  snd (run (step_i mi) (init_state c0 gs) tr) = l1 ++ (e1, a1) :: l2 ++ (e2, a2) :: l3 ->
+  In (Eval g t1) a1 -> In (Eval g t2) a2 ->
+  forallb (keeps g) (map fst l2) = true ->
+  t2 - t1 > i * ns_per_s.
+Proof.
+  intros mods mi i c0 gs tr l1 e1 a1 l2 e2 a2 l3 g t1 t2 Hc Hs Hrun Hin1 Hin2 Hk.
+  destruct (configure_accepted_range mods mi Hc) as [Hr [Hsh _]].
+  assert (Hne : mods <> []) by (destruct Hs as [Hin _]; destruct mods; [contradiction | discriminate]).
+  rewrite (shortest_unique mods i mi Hs (Hsh Hne)).
+  eapply pacing_interleaved; try eassumption. lia.
+Qed.
+
+Theorem evaluated_when_due_accepted : forall mods mi i s now g le,
+  configure mods = Some mi ->
+  shortest mods i ->
+  doEval s = true -> ph s <> Crashed ->
+  PositiveMap.find g (groups s) = Some le -> now - le > i * ns_per_s ->
+  In (Eval g now) (snd (step_s mi s (Tick now))).
+Proof.
+  intros mods mi i s now g le Hc Hs Hd Hp Hf Hgt.
+  destruct (configure_accepts mods mi Hc) as [-> Hr].
+  destruct (configure_accepted_range mods _ Hc) as [Hb _].
+  assert (Hne : mods <> []) by (destruct Hs as [Hin _]; destruct mods; [contradiction | discriminate]).
+  eapply evaluated_when_due; try eassumption.
+  - intros m Hm. specialize (Hr m Hm). unfold max_pace_interval, max_int64 in *. lia.
+  - rewrite (shortest_unique mods i _ Hs (min_interval_is_min mods Hne
+      (fun m Hm => ltac:(specialize (Hr m Hm); unfold max_pace_interval, max_int64 in *; lia)))). lia.
+Qed.
+
+(* an accepted configuration never reaches the rand.Int63n panic: a refresh does not crash *)
+Theorem refresh_never_panics_accepted : forall mods mi s now present,
+  configure mods = Some mi -> ph s <> Crashed -> snd (step_s mi s (Refresh now present)) = [].
+Proof.
+  intros mods mi [p d c gs] now present Hc Hp. destruct (configure_accepted_range mods mi Hc) as [Hr _]. simpl in Hp.
+  assert (Hpos : (mul64 mi 1000 <=? 0) = false).
+  { apply Z.leb_gt. unfold mul64. rewrite wrap64_id; unfold in_i64, two63, max_pace_interval in *; lia. }
+  unfold step_s, step_i. simpl. rewrite Hpos, andb_false_r. destruct p; try congruence; reflexivity.
+Qed.
+
+(* the configurations of the before-fix witnesses are refused now; the two-module example is accepted with 30 *)
+Example configure_examples :
+  configure wrap_module = None /\ configure [mkMod (Some 0) None None] = None
+  /\ configure [mkMod (Some 9223372036854776) None None] = None /\ configure [mkMod (Some 30) None None; mkMod (Some (-5)) None None] = None
+  /\ configure [mkMod (Some 9223372037) None None] = None /\ configure [mkMod (Some 9223372036) None None] = Some 9223372036
+  /\ configure two_modules = Some 30 /\ configure [] = Some 310536000 /\ configure [mkMod None (Some 0) None] = Some 60.
+Proof. repeat split; vm_compute; reflexivity. Qed.
+
+Example pacing_accepted_example :
+  configure two_modules = Some 30 /\ (forall m, In m two_modules -> 0 <= eff_interval m < max_int64) /\
+  snd (run (step_s (configure_min two_modules)) (init_state true one_group)
+         [Wake; LockOk; Tick 31000000000; Tick 36000000000; Tick 61000000000; Tick 61000000001])
+  = [(Wake, [CallLock]); (LockOk, []); (Tick 31000000000, [Eval 1 31000000000]); (Tick 36000000000, []);
+     (Tick 61000000000, []); (Tick 61000000001, [Eval 1 61000000001])].
+Proof. split; [vm_compute; reflexivity | exact pacing_configured_example]. Qed.
